@@ -249,6 +249,10 @@ func (r *run) clientScript(p *peer, sc []WStep) *kit.Failure {
 				continue
 			}
 			op := editOps[(st.A*8+st.B)%len(editOps)]
+			if _, why := prog.GuardF48(d, prog.Step{Op: op, A: st.A, B: st.B, C: st.C}); why != "" && !kit.NoExclusions() {
+				r.count("excluded:" + why) // known finding F48: insert right before a known tombstone
+				continue
+			}
 			if _, err := prog.ApplyEdit(d, prog.Step{Op: op, A: st.A, B: st.B, C: st.C}); err != nil {
 				return kit.Failf("EDITFAIL", "c%d doc %d %s: %v", p.idx, st.D, op, err)
 			}
